@@ -13,9 +13,10 @@ import sys
 
 V = os.path.dirname(os.path.dirname(os.path.abspath(__file__)))
 FIELD = {'F6': 'popInclude', 'F7': 'textFromMeta', 'F20': 'pointUnreadable', 'F21': 'pixAsDeg',
-         'F31': 'dropLabelcolor', 'F32': 'labeloffRepr', 'F33': 'quotePairUnreadable'}
+         'F31': 'dropLabelcolor', 'F32': 'labeloffRepr', 'F33': 'quotePairUnreadable', 'F34': 'keepSourceAttrs'}
 REFUTED = {'F7': 'text_preserved_refuted_F7', 'F20': 'crtf_roundtrip_refuted_F20',
-           'F21': 'crtf_roundtrip_refuted_F21', 'F33': 'crtf_roundtrip_refuted_F33'}
+           'F21': 'crtf_roundtrip_refuted_F21', 'F33': 'crtf_roundtrip_refuted_F33',
+           'F34': 'crtf_roundtrip_refuted_F34'}
 
 
 def switch(fid, sha):
